@@ -22,6 +22,12 @@ use std::time::Duration;
 pub const RULE: &str = "(a) meta: anchor drawn from the recorded jq 1.7.1 corpus (487 golden cases + 219 error probes, minus the repo's known-failure manifests, minus filters using input/halt/$__loc__/env/now/debug, minus -r cases) wrapped in 1..3 nested law wrappers ([f], f|., .|f, (f),(f), first, limit, [f][i], as-bindings, def, if, try/catch, ?, {a:f}, [f]|length, reduce, foreach, //, label/break, [.[]|f] over [x,x], ...); expected outcome (values, error or not, message, exit status, and the text when the wrapper preserves it) computed from the recording alone. Non-trivial: >= 2 wrappers; distinct by hash(anchor, program). (b) proxy: typed core-fragment program (gen::jqcore) over 1..6 same-shape documents, compared with jq 1.6 by value (numbers as doubles), error-or-not, exit status, and message text only for message families the recorded probe corpus shows identical in 1.6 and 1.7.1. Non-trivial: >= 3 AST nodes on a non-scalar input; distinct by hash(program, docs).";
 
 const JQ16: &str = "/usr/bin/jq";
+/// known finding: a postfix (`[i]`, `.k`, `[]`, slice) directly after an array/object
+/// construction, string literal, function call or `..` is a parse error in succinctly
+const SIG_POSTFIX: &str = "C24/parse-reject/postfix-on-constructed-term";
+/// known finding: `error(f)` with f producing no output raises "no value" instead of producing nothing
+const SIG_ERROR_EMPTY: &str = "C24/zero-output-argument/error(empty)-raises-no-value";
+const SIG_FORMAT_LITERAL: &str = "C24/parse-reject/format-string-literal";
 const TWO53: f64 = 9007199254740992.0;
 
 fn repo() -> String {
@@ -573,6 +579,7 @@ enum W {
     First,
     Limit(usize),
     CollectIdx(i64),
+    CollectIdxParen(i64),
     AsIn,
     Def,
     DefArg,
@@ -600,7 +607,7 @@ enum W {
 }
 
 const ALL_W: &[W] = &[
-    W::Collect, W::PipeId, W::IdPipe, W::Dup, W::First, W::Limit(1), W::Limit(2), W::Limit(3), W::CollectIdx(0), W::CollectIdx(1), W::CollectIdx(-1), W::CollectIdx(7), W::AsIn, W::Def, W::DefArg, W::IfTrue, W::IfFalse, W::TryCatch, W::TryCatch, W::TryQ, W::TryBare, W::ObjVal, W::AsOut, W::CollectLen, W::ReduceLast, W::ForeachCount, W::PipeConst, W::Alt, W::SelectTrue, W::ArrEach, W::Tail, W::Head, W::Label, W::LabelBreak, W::CollectIter, W::ErrFirst, W::EmptyAfter,
+    W::Collect, W::PipeId, W::IdPipe, W::Dup, W::First, W::Limit(1), W::Limit(2), W::Limit(3), W::CollectIdx(0), W::CollectIdxParen(0), W::CollectIdxParen(1), W::CollectIdxParen(-1), W::CollectIdxParen(7), W::CollectIdxParen(2), W::AsIn, W::Def, W::DefArg, W::IfTrue, W::IfFalse, W::TryCatch, W::TryCatch, W::TryQ, W::TryBare, W::ObjVal, W::AsOut, W::CollectLen, W::ReduceLast, W::ForeachCount, W::PipeConst, W::Alt, W::SelectTrue, W::ArrEach, W::Tail, W::Head, W::Label, W::LabelBreak, W::CollectIter, W::ErrFirst, W::EmptyAfter,
 ];
 
 impl W {
@@ -608,6 +615,7 @@ impl W {
         match self {
             W::Limit(n) => format!("Limit:{}", n),
             W::CollectIdx(i) => format!("CollectIdx:{}", i),
+            W::CollectIdxParen(i) => format!("CollectIdxParen:{}", i),
             w => format!("{:?}", w),
         }
     }
@@ -618,11 +626,14 @@ impl W {
         if let Some(n) = s.strip_prefix("CollectIdx:") {
             return n.parse().ok().map(W::CollectIdx);
         }
+        if let Some(n) = s.strip_prefix("CollectIdxParen:") {
+            return n.parse().ok().map(W::CollectIdxParen);
+        }
         ALL_W.iter().find(|w| w.name() == s).cloned()
     }
     /// also valid when the outputs before the error are unknown (erases them)
     fn erases_prefix(&self) -> bool {
-        matches!(self, W::Collect | W::CollectIdx(_) | W::CollectLen | W::ReduceLast | W::CollectIter)
+        matches!(self, W::Collect | W::CollectIdx(_) | W::CollectIdxParen(_) | W::CollectLen | W::ReduceLast | W::CollectIter)
     }
 
     /// program text and outcome of the wrapped program; `d` makes bound names unique
@@ -652,8 +663,8 @@ impl W {
             }
             W::First => Some((format!("first({})", p), if ys.is_empty() { Outc { ys: Some(vec![]), err: o.err.clone() } } else { Outc { ys: Some(vec![ys[0].clone()]), err: None } })),
             W::Limit(n) => Some((format!("limit({}; {})", n, p), if ys.len() >= *n { Outc { ys: Some(ys[..*n].to_vec()), err: None } } else { Outc { ys: Some(ys.clone()), err: o.err.clone() } })),
-            W::CollectIdx(i) => {
-                let t = format!("[{}][{}]", p, i);
+            W::CollectIdx(i) | W::CollectIdxParen(i) => {
+                let t = if matches!(self, W::CollectIdx(_)) { format!("[{}][{}]", p, i) } else { format!("([{}])[{}]", p, i) };
                 if !ok {
                     return Some((t, Outc { ys: Some(vec![]), err: o.err.clone() }));
                 }
@@ -736,13 +747,19 @@ struct MetaCase {
     program: String,
     input: String,
     expect: Outc,
+    /// an `error(f)` wrapper was applied to an f with no outputs and no error
+    errfirst_empty: bool,
 }
 
 fn build_meta(a: &Anchor, ws: &[W], iter2: bool) -> Option<MetaCase> {
     let mut prog = a.filter.clone();
     let mut o = Outc { ys: a.ys.clone(), err: a.err.clone() };
     let mut applied = vec![];
+    let mut errfirst_empty = false;
     for (d, w) in ws.iter().enumerate() {
+        if *w == W::ErrFirst && o.err.is_none() && matches!(&o.ys, Some(v) if v.is_empty()) {
+            errfirst_empty = true;
+        }
         if let Some((t, no)) = w.apply(&prog, &o, d) {
             prog = t;
             o = no;
@@ -767,7 +784,7 @@ fn build_meta(a: &Anchor, ws: &[W], iter2: bool) -> Option<MetaCase> {
         input = format!("[{},{}]\n", x, x);
         it = true;
     }
-    Some(MetaCase { anchor: a.clone(), wrappers: applied, iter2: it, program: prog, input, expect: o })
+    Some(MetaCase { anchor: a.clone(), wrappers: applied, iter2: it, program: prog, input, expect: o, errfirst_empty })
 }
 
 fn check_meta(c: &MetaCase, st: &mut Stats) -> Result<(), Fail> {
@@ -782,6 +799,22 @@ fn check_meta(c: &MetaCase, st: &mut Stats) -> Result<(), Fail> {
     if o.crashed() {
         fail!("C24/crash", {"case": case(), "got": show_out(&o)});
     }
+    if o.code == Some(1) && o.stderr_str().contains("compile error") {
+        // the program is standard jq (the recorded filter inside law wrappers) and must compile
+        // is the only obstacle the `[f][i]` spelling? re-run with `([f])[i]`
+        let postfix = c.wrappers.iter().any(|w| matches!(w, W::CollectIdx(_))) && {
+            let ws2: Vec<W> = c.wrappers.iter().map(|w| if let W::CollectIdx(i) = w { W::CollectIdxParen(*i) } else { w.clone() }).collect();
+            match build_meta(&c.anchor, &ws2, c.iter2) {
+                Some(c2) => {
+                    let o2 = run_prog(None, &c2.anchor.args, &c2.program, c2.input.as_bytes(), 20);
+                    !(o2.code == Some(1) && o2.stderr_str().contains("compile error"))
+                }
+                None => false,
+            }
+        };
+        let sig = if postfix { SIG_POSTFIX.to_string() } else { format!("C24/meta/parse-reject/{}", ws) };
+        fail!(sig, {"case": case(), "got": show_out(&o)});
+    }
     let exp_ys = c.expect.ys.as_ref().unwrap();
     let exp_render = || json!({"values": exp_ys.iter().map(|x| to_compact(&x.0)).collect::<Vec<_>>(), "error": c.expect.err.as_ref().map(to_compact)});
     // stdout: values
@@ -790,6 +823,9 @@ fn check_meta(c: &MetaCase, st: &mut Stats) -> Result<(), Fail> {
         Err(e) => fail!(format!("C24/meta/stdout-not-json/{}", ws), {"case": case(), "parse_error": e.msg, "got": show_out(&o), "expected": exp_render()}),
     };
     if got.len() != exp_ys.len() || got.iter().zip(exp_ys.iter()).any(|(g, e)| !j_eq(g, &e.0)) {
+        if c.errfirst_empty && (o.stdout_str().contains("\"no value\"") || o.stderr_str().contains("no value")) {
+            fail!(SIG_ERROR_EMPTY, {"case": case(), "got": show_out(&o), "expected": exp_render()});
+        }
         fail!(format!("C24/meta/values/{}", ws), {"case": case(), "got": show_out(&o), "expected": exp_render()});
     }
     // error or not, message, exit status
@@ -847,7 +883,7 @@ fn gen_meta(u: &mut Src, anchors: &[Anchor]) -> Option<MetaCase> {
     for i in 0..depth {
         // probes need a prefix-erasing wrapper first
         if i == 0 && a.ys.is_none() {
-            ws.push(u.pick(&[W::Collect, W::Collect, W::CollectLen, W::ReduceLast, W::CollectIdx(0), W::CollectIter]).clone());
+            ws.push(u.pick(&[W::Collect, W::Collect, W::CollectLen, W::ReduceLast, W::CollectIdxParen(0), W::CollectIter]).clone());
         } else {
             ws.push(u.pick(ALL_W).clone());
         }
@@ -1022,7 +1058,8 @@ struct ProxyEnv {
 fn known_signature(kind: &str, c: &ProxyCase, detail: &str) -> Option<String> {
     let has = |o: &str| c.ops.iter().any(|x| x == o);
     match kind {
-        "parse-reject" if has("format-interp") && detail.contains("unexpected character '\"'") => Some("C24/proxy/parse-reject/format-string-literal".into()),
+        "parse-reject" if has("format-interp") && detail.contains("unexpected character '\"'") => Some(SIG_FORMAT_LITERAL.into()),
+        "parse-reject" if has("postfix-term") && (detail.contains("'['") || detail.contains("'.'")) => Some(SIG_POSTFIX.into()),
         _ => None,
     }
 }
